@@ -254,6 +254,11 @@ func runC05(p *Program, r *Report) {
 		gpe.Atomic = map[*ssa.Function]bool{et: true}
 		errIdx := g.Signature.Results().Len() - 1
 		calls := callsIn(g, pkgTemplate+".escapeTemplate")
+		// the template the gate is about: the one it hands to the analysis
+		ts := ts
+		if len(calls) > 0 && len(calls[0].Common().Args) > 0 {
+			ts = ts.withSubject(gpe, calls[0].Common().Args[0])
+		}
 		n := 0
 		for _, pth := range gpe.Paths() {
 			v, zero, ok := pth.ResultValue(errIdx)
